@@ -1,15 +1,103 @@
 //! Ghost vocabulary shared by all contracts (woven into the scratch copy as `mod verif_spec`).
+//! Part 1 is TRUSTED (assumed specifications of std); part 2 is pure specification and proved lemmas.
 #![allow(missing_docs)]
 use vstd::prelude::*;
+use std::collections::VecDeque;
+use std::fs::File;
 
 verus! {
 
-// ---------------------------------------------------------------------------------------------
-// TRUSTED: specifications of std items (assumed, never proved)
+// =============================================================================================
+// PART 1 -- TRUSTED: specifications of std items (assumed, never proved)
+// =============================================================================================
 
 #[verifier::external_trait_specification]
 pub trait ExError: core::fmt::Debug + core::fmt::Display {
     type ExternalTraitSpecificationFor: core::error::Error;
+}
+
+#[verifier::external_type_specification]
+#[verifier::external_body]
+pub struct ExFile(File);
+
+#[verifier::external_type_specification]
+#[verifier::external_body]
+pub struct ExIoError(std::io::Error);
+
+/// File model.  `file_data` is the content, `file_pos` the cursor of this handle.
+pub uninterp spec fn file_data(f: File) -> Seq<u8>;
+pub uninterp spec fn file_pos(f: File) -> nat;
+
+/// ASSUMPTION "regular files do full reads": `read` returns min(buf.len, remaining) bytes taken at
+/// the cursor and advances the cursor; the content is unchanged.  On error nothing is known about
+/// the cursor, the content is unchanged.
+pub assume_specification[ <File as std::io::Read>::read ](f: &mut File, buf: &mut [u8]) -> (r: Result<usize, std::io::Error>)
+    ensures
+        file_data(*final(f)) == file_data(*old(f)),
+        final(buf)@.len() == old(buf)@.len(),
+        r matches Ok(n) ==> {
+            &&& file_pos(*old(f)) <= file_data(*old(f)).len()
+            &&& n as nat == (if old(buf)@.len() <= file_data(*old(f)).len() - file_pos(*old(f)) { old(buf)@.len() as nat } else { (file_data(*old(f)).len() - file_pos(*old(f))) as nat })
+            &&& file_pos(*final(f)) == file_pos(*old(f)) + n
+            &&& final(buf)@.subrange(0, n as int) == file_data(*old(f)).subrange(file_pos(*old(f)) as int, file_pos(*old(f)) + n)
+        };
+
+/// project-local wrapper spec for `Write::write_all` on a File is given where it is used
+/// (assume_specification of provided trait methods is rejected by Verus).
+
+pub assume_specification<T, A: core::alloc::Allocator>[ VecDeque::<T, A>::is_empty ](v: &VecDeque<T, A>) -> (r: bool)
+    ensures r == (v@.len() == 0);
+
+
+#[verifier::external_type_specification]
+#[verifier::external_body]
+#[verifier::reject_recursive_types(T)]
+#[verifier::reject_recursive_types(A)]
+pub struct ExVecDequeDrain<'a, T: 'a, A: core::alloc::Allocator>(std::collections::vec_deque::Drain<'a, T, A>);
+
+/// bounds denoted by a `RangeBounds` value (only `Range<usize>` is given a meaning, by the axiom below)
+pub uninterp spec fn rb_start<R>(r: R) -> int;
+pub uninterp spec fn rb_end<R>(r: R) -> int;
+pub axiom fn axiom_range_bounds(r: core::ops::Range<usize>)
+    ensures #![trigger rb_start(r)] #![trigger rb_end(r)] rb_start(r) == r.start, rb_end(r) == r.end;
+
+/// ASSUMPTION: `drain(a..b)` followed by dropping the iterator removes exactly the elements a..b
+/// (the removal is complete when the borrow ends).
+pub assume_specification<T, A: core::alloc::Allocator, R: core::ops::RangeBounds<usize>>[ VecDeque::<T, A>::drain::<R> ](v: &mut VecDeque<T, A>, range: R) -> (r: std::collections::vec_deque::Drain<'_, T, A>)
+    requires 0 <= rb_start(range) <= rb_end(range) <= old(v)@.len(),
+    ensures final(v)@ == old(v)@.subrange(0, rb_start(range)) + old(v)@.subrange(rb_end(range), old(v)@.len() as int);
+
+pub assume_specification<T>[ std::mem::drop ](_0: T) where T: std::marker::Destruct;
+
+// =============================================================================================
+// PART 2 -- pure specification vocabulary and proved lemmas
+// =============================================================================================
+
+/// number of blocks a transfer of `len` bytes has with block size `cs` (the last one is short, possibly empty)
+pub open spec fn nblocks(len: nat, cs: nat) -> nat { len / cs + 1 }
+
+/// the i-th piece (0-based) of `data` cut into pieces of `cs` bytes; block number k carries piece(k-1)
+pub open spec fn piece(data: Seq<u8>, cs: nat, i: nat) -> Seq<u8> {
+    data.subrange((i * cs) as int, if (i + 1) * cs <= data.len() { ((i + 1) * cs) as int } else { data.len() as int })
+}
+
+
+pub proof fn lemma_step(t: nat, cs: nat)
+    requires cs > 0,
+    ensures (t + 1) * cs == t * cs + cs, (t * cs + cs) / cs == t + 1, (t * cs) / cs == t,
+{
+    assert((t + 1) * cs == t * cs + cs) by(nonlinear_arith);
+    assert(cs * t == t * cs) by(nonlinear_arith);
+    assert(cs * (t + 1) == (t + 1) * cs) by(nonlinear_arith);
+    vstd::arithmetic::div_mod::lemma_div_multiples_vanish(t as int, cs as int);
+    vstd::arithmetic::div_mod::lemma_div_multiples_vanish((t + 1) as int, cs as int);
+}
+
+pub proof fn lemma_div_bounds(len: nat, t: nat, cs: nat)
+    requires cs > 0, t * cs <= len, len < t * cs + cs,
+    ensures len / cs == t,
+{
+    vstd::arithmetic::div_mod::lemma_fundamental_div_mod_converse(len as int, cs as int, t as int, (len - t * cs) as int);
 }
 
 } // verus!
